@@ -2,7 +2,9 @@ import VlsModel.Model.Sweep
 import VlsModel.Gen.FnSweep
 import VlsModel.Gen.FnChannel
 import VlsModel.Gen.FnTxUtil
+import VlsModel.Gen.FnHtlcTx
 import VlsModel.Lemmas.NodeWalletFn
+import VlsModel.Lemmas.Sweep
 import VlsModel.Lemmas.FnGen
 /-
 C09 — the sweep model (`Model/Sweep.lean`) proved equal to the bodies of
@@ -615,6 +617,200 @@ theorem C09_fn_htlc_feerate (ct : CommitmentType) (offered : Bool) (totalFee : N
   have hw : htlcWeight ct offered ≠ 0 := by unfold htlcWeight; cases offered <;> simp [hz]
   rw [C09_fn_estimate_feerate _ _ hw]
   simp [htlcFeerate, hz]
+
+
+/-! ### `decode_and_validate_htlc_tx` (recomposition of the second-level HTLC transaction and sighash comparison)
+
+`Gen/FnHtlcTx.lean` is the regenerated body.  The rust-bitcoin `Transaction` stays an opaque value (= the model's
+structured `HtlcTx`), read through three projections; the BIP-143 sighash of input 0 is an external, instantiated with
+*what the sighash commits to* (`sighashOf`: the whole transaction for SIGHASH_ALL; version, locktime, input 0 and output 0
+for SINGLE|ANYONECANPAY; `None` without inputs) — the one cryptographic assumption of C09 (no collisions);
+LDK's `build_htlc_transaction` is `Sweep.recompose`, `estimate_feerate_per_kw` is the *generated* function of
+transaction_utils.rs, the HTLC weights are `Sweep.htlcWeight`. -/
+section HtlcTx
+open VlsModel.Gen.FnHtlcTx (HTLCOutputInCommitment TxCreationKeys OutPoint)
+
+abbrev Commit := Sum (Nat × Nat × Option Sweep.TxIn × Option Sweep.TxOut) HtlcTx
+
+/-- the generated code compares sighashes with the `BEq` of `DecidableEq` -/
+instance (priority := high) commitBEq : BEq Commit := instBEqOfDecidableEq
+
+/-- what the BIP-143 sighash of input 0 commits to; `none`: there is no input 0 -/
+def sighashOf (tx : HtlcTx) (singleAcp : Bool) : Option Commit :=
+  match tx.ins with
+  | [] => none
+  | _ :: _ => some (if singleAcp then .inl (tx.version, tx.locktime, tx.ins.head?, tx.outs.head?) else .inr tx)
+
+def buildE (txid feerate delay : Nat) (htlc : HTLCOutputInCommitment Unit) (ct : CommitmentType) (dkey rkey : Nat) :
+    Rs.M HtlcTx :=
+  match recompose ct txid (htlc.transaction_output_index.getD 0) feerate delay htlc.offered htlc.cltv_expiry
+      (htlc.amount_msat / 1000) rkey dkey with
+  | some t => pure t
+  | none => Rs.panic
+
+theorem commit_ne (b : Bool) (tx rtx : HtlcTx) :
+    (((if b then Sum.inl (rtx.version, rtx.locktime, rtx.ins.head?, rtx.outs.head?) else Sum.inr rtx) : Commit)
+        != (if b then Sum.inl (tx.version, tx.locktime, tx.ins.head?, tx.outs.head?) else Sum.inr tx))
+      = !(sighashEq b tx rtx) := by
+  cases b with
+  | true =>
+    simp only [if_true, sighashEq]
+    by_cases hP : tx.version = rtx.version ∧ tx.locktime = rtx.locktime ∧ tx.ins.head? = rtx.ins.head? ∧
+        tx.outs.head? = rtx.outs.head?
+    · obtain ⟨h1, h2, h3, h4⟩ := hP
+      simp [h1, h2, h3, h4]
+    · have hr : (tx.version == rtx.version && tx.locktime == rtx.locktime && tx.ins.head? == rtx.ins.head? &&
+          tx.outs.head? == rtx.outs.head?) = false := by
+        rw [Bool.eq_false_iff]
+        intro hc
+        apply hP
+        simpa [Bool.and_eq_true, beq_iff_eq, and_assoc] using hc
+      have hl : ((Sum.inl (rtx.version, rtx.locktime, rtx.ins.head?, rtx.outs.head?) : Commit)
+          != Sum.inl (tx.version, tx.locktime, tx.ins.head?, tx.outs.head?)) = true := by
+        rw [bne_iff_ne]
+        intro hc
+        apply hP
+        have h' := Sum.inl.inj hc
+        simp only [Prod.mk.injEq] at h'
+        obtain ⟨a, b, c, d⟩ := h'
+        exact ⟨a.symm, b.symm, c.symm, d.symm⟩
+      rw [hl, hr]; rfl
+  | false =>
+    simp only [Bool.false_eq_true, if_false, sighashEq]
+    by_cases hP : tx = rtx
+    · subst hP; simp
+    · have hr : (tx == rtx) = false := by
+        rw [Bool.eq_false_iff]; intro hc; exact hP (by simpa using hc)
+      have hl : ((Sum.inr rtx : Commit) != Sum.inr tx) = true := by
+        rw [bne_iff_ne]; intro hc; exact hP (Sum.inr.inj hc).symm
+      rw [hl, hr]; rfl
+
+theorem sighashOf_recomposed (ct : CommitmentType) (txid vout feerate delay : Nat) (offered : Bool)
+    (cltv amountSat r k : Nat) (rtx : HtlcTx) (b : Bool)
+    (h : recompose ct txid vout feerate delay offered cltv amountSat r k = some rtx) :
+    sighashOf rtx b = some (if b then .inl (rtx.version, rtx.locktime, rtx.ins.head?, rtx.outs.head?) else .inr rtx) := by
+  obtain ⟨_, rfl⟩ := recompose_some ct txid vout feerate delay offered cltv amountSat r k rtx h
+  simp [sighashOf]
+
+theorem umul_1000 (a : Nat) :
+    Rs.umul Rs.U64_MAX a 1000 = match U64.checkedMul a 1000 with
+      | some m => .ok m
+      | none => .error .overflow := by
+  unfold Rs.umul U64.checkedMul
+  have : U64.MAX = Rs.U64_MAX := by decide
+  by_cases h : a * 1000 ≤ Rs.U64_MAX <;> simp [h, this, Rs.overflow, pure, Except.pure]
+
+/-- result classes of the errors of the decode step (every `policy_error` is a policy failure) -/
+def relE : Rs.Fail → Res
+  | .err _ => .errPolicy
+  | _ => .panic
+
+/-- **`decode_and_validate_htlc_tx` + `validate_htlc_tx` = `Sweep.signHtlcTx`**: when the generated decode step fails,
+    the model's answer is that failure's class; when it returns `(feerate, htlc, ..)`, the model's answer is
+    `validateHtlcTx` on exactly these values (which `C09_fn_validate_htlc_tx` ties to the generated `validate_htlc_tx`) -/
+theorem C09_fn_decode_and_validate_htlc_tx (pol : HtlcPolicy) (ct : CommitmentType) (isCp : Bool) (hd cd : Nat)
+    (tx : HtlcTx) (redeem : RedeemKind) (amountSat : Nat) (v : Gen.FnHtlcTx.SimpleValidator) (rs ws : Unit) :
+    match Gen.FnHtlcTx.SimpleValidator.decode_and_validate_htlc_tx
+        (ext_is_anchors := fun _ => ct.isAnchors) (ext_sighash_single_acp := true) (ext_sighash_all := false)
+        (ext_p2wsh_sighash := fun (t : HtlcTx) (_ : Unit) _ ty => sighashOf t ty)
+        (ext_is_offered_htlc_script := fun _ _ => redeem == .offered)
+        (ext_is_received_htlc_script := fun _ _ => redeem == .received)
+        (ext_tx_locktime := fun (t : HtlcTx) => t.locktime)
+        (ext_tx_inputs := fun (t : HtlcTx) => t.ins.map (fun i => { previous_output := { txid := i.txid, vout := i.vout } }))
+        (ext_tx_outputs := fun (t : HtlcTx) => t.outs.map (fun o => { value := o.value }))
+        (ext_features := fun _ => ct) (ext_is_zero_fee_htlc := fun _ => ct.isZeroFee)
+        (ext_htlc_timeout_tx_weight := fun c => htlcWeight c true) (ext_htlc_success_tx_weight := fun c => htlcWeight c false)
+        (ext_estimate_feerate_per_kw := Gen.FnTxUtil.estimate_feerate_per_kw) (ext_zero_payment_hash := ())
+        (ext_build_htlc_transaction := buildE)
+        v isCp { holder_selected_contest_delay := hd, counterparty_selected_contest_delay := cd }
+        ({ broadcaster_delayed_payment_key := 0, revocation_key := 0 } : TxCreationKeys Nat Nat) tx rs amountSat ws with
+    | .ok (feerate, htlc, _, _) =>
+        signHtlcTx pol ct (if isCp then hd else cd) tx redeem amountSat
+          = validateHtlcTx pol ct htlc.offered htlc.cltv_expiry feerate
+    | .error e => signHtlcTx pol ct (if isCp then hd else cd) tx redeem amountSat = relE e := by
+  unfold Gen.FnHtlcTx.SimpleValidator.decode_and_validate_htlc_tx signHtlcTx
+  cases hins : tx.ins with
+  | nil => simp [sighashOf, hins, Rs.okOr, Rs.fail, relE, bind, Except.bind]
+  | cons in0 restIn =>
+    have hso : ∀ b, sighashOf tx b = some (if b then .inl (tx.version, tx.locktime, tx.ins.head?, tx.outs.head?) else .inr tx) := by
+      intro b; simp [sighashOf, hins]
+    cases redeem with
+    | invalid => simp [hso, Rs.okOr, Rs.fail, relE, bind, Except.bind]
+    | offered =>
+      cases houts : tx.outs with
+      | nil => simp [hso, hins, houts, Rs.okOr, Rs.index, Rs.panic, relE, bind, Except.bind]
+      | cons out0 restOut =>
+        cases hsub : U64.checkedSub amountSat out0.value with
+        | none =>
+          have hs' : Rs.ucheckedSub amountSat out0.value = none := hsub
+          simp [hso, hins, houts, Rs.okOr, Rs.index, hs', hsub, Rs.fail, relE, bind, Except.bind]
+        | some totalFee =>
+          have hs' : Rs.ucheckedSub amountSat out0.value = some totalFee := hsub
+          have hw : htlcWeight ct true ≠ 0 := by unfold htlcWeight; cases ct.isZeroFee <;> simp
+          have hest := C09_fn_estimate_feerate totalFee (htlcWeight ct true) hw
+          have hmul := umul_1000 amountSat
+          cases hm : U64.checkedMul amountSat 1000 with
+          | none =>
+            rw [hm] at hmul
+            cases hz : ct.isZeroFee <;>
+              simp [hso, hins, houts, Rs.okOr, Rs.index, hs', hsub, hm, hz, hest, hmul, relE, bind, Except.bind, pure, Except.pure]
+          | some m =>
+            rw [hm] at hmul
+            have hmv : m = amountSat * 1000 := by
+              unfold U64.checkedMul at hm; split at hm <;> simp_all
+            have hdiv : amountSat * 1000 / 1000 = amountSat := Nat.mul_div_cancel _ (by decide)
+            have hfr : htlcFeerate ct true totalFee = if ct.isZeroFee then 0 else estimateFeerate totalFee (htlcWeight ct true) := rfl
+            cases hrec : recompose ct in0.txid in0.vout (htlcFeerate ct true totalFee) (if isCp then hd else cd) true
+                (if true then tx.locktime else 0) amountSat 0 0 with
+            | none =>
+              cases hz : ct.isZeroFee <;> cases ha : ct.isAnchors <;>
+                simp_all [Rs.okOr, Rs.index, buildE, htlcFeerate, Rs.panic, relE, bind, Except.bind, pure, Except.pure]
+            | some rtx =>
+              have hsr := sighashOf_recomposed ct in0.txid in0.vout (htlcFeerate ct true totalFee) (if isCp then hd else cd) true
+                (if true then tx.locktime else 0) amountSat 0 0 rtx ct.isAnchors hrec
+              have hne := commit_ne ct.isAnchors tx rtx
+              cases hz : ct.isZeroFee <;> cases ha : ct.isAnchors <;> cases heq : sighashEq ct.isAnchors tx rtx <;>
+                simp_all [Rs.okOr, Rs.index, buildE, htlcFeerate, Rs.unwrap, Rs.fail, relE, bind, Except.bind, pure, Except.pure]
+    | received =>
+      have hro : (RedeemKind.received == RedeemKind.offered) = false := by decide
+      have hrr : (RedeemKind.received == RedeemKind.received) = true := by decide
+      simp only [hro, hrr]
+      cases houts : tx.outs with
+      | nil => simp [hso, hins, houts, Rs.okOr, Rs.index, Rs.panic, relE, bind, Except.bind]
+      | cons out0 restOut =>
+        cases hsub : U64.checkedSub amountSat out0.value with
+        | none =>
+          have hs' : Rs.ucheckedSub amountSat out0.value = none := hsub
+          simp [hso, hins, houts, Rs.okOr, Rs.index, hs', hsub, Rs.fail, relE, bind, Except.bind]
+        | some totalFee =>
+          have hs' : Rs.ucheckedSub amountSat out0.value = some totalFee := hsub
+          have hw : htlcWeight ct false ≠ 0 := by unfold htlcWeight; cases ct.isZeroFee <;> simp
+          have hest := C09_fn_estimate_feerate totalFee (htlcWeight ct false) hw
+          have hmul := umul_1000 amountSat
+          cases hm : U64.checkedMul amountSat 1000 with
+          | none =>
+            rw [hm] at hmul
+            cases hz : ct.isZeroFee <;>
+              simp [hso, hins, houts, Rs.okOr, Rs.index, hs', hsub, hm, hz, hest, hmul, relE, bind, Except.bind, pure, Except.pure]
+          | some m =>
+            rw [hm] at hmul
+            have hmv : m = amountSat * 1000 := by
+              unfold U64.checkedMul at hm; split at hm <;> simp_all
+            have hdiv : amountSat * 1000 / 1000 = amountSat := Nat.mul_div_cancel _ (by decide)
+            have hfr : htlcFeerate ct false totalFee = if ct.isZeroFee then 0 else estimateFeerate totalFee (htlcWeight ct false) := rfl
+            cases hrec : recompose ct in0.txid in0.vout (htlcFeerate ct false totalFee) (if isCp then hd else cd) false
+                (if false then tx.locktime else 0) amountSat 0 0 with
+            | none =>
+              cases hz : ct.isZeroFee <;> cases ha : ct.isAnchors <;>
+                simp_all [Rs.okOr, Rs.index, buildE, htlcFeerate, Rs.panic, relE, bind, Except.bind, pure, Except.pure]
+            | some rtx =>
+              have hsr := sighashOf_recomposed ct in0.txid in0.vout (htlcFeerate ct false totalFee) (if isCp then hd else cd) false
+                (if false then tx.locktime else 0) amountSat 0 0 rtx ct.isAnchors hrec
+              have hne := commit_ne ct.isAnchors tx rtx
+              cases hz : ct.isZeroFee <;> cases ha : ct.isAnchors <;> cases heq : sighashEq ct.isAnchors tx rtx <;>
+                simp_all [Rs.okOr, Rs.index, buildE, htlcFeerate, Rs.unwrap, Rs.fail, relE, bind, Except.bind, pure, Except.pure]
+
+end HtlcTx
 
 /-! ### `ChannelSetup::is_anchors` / `is_zero_fee_htlc` -/
 
